@@ -428,6 +428,26 @@ func genHav(t *rapid.T) HavCase {
 }
 
 func execHav(c HavCase) vt.Result {
+	if r := execHavOne(c); r.Err != nil {
+		return r
+	}
+	// a sweep of antipodal pairs derived from the case: whether rounding pushes the haversine term above 1
+	// depends on the latitude, so one pair per case meets it rarely
+	for k := 1; k <= 96; k++ {
+		lat := float32(math.Mod(float64(c.Lat1)+float64(k)*0.3717, 90))
+		lon := float32(math.Mod(float64(c.Lon1)+float64(k)*1.0123, 180))
+		lon2 := lon + 180
+		if lon2 > 180 {
+			lon2 -= 360
+		}
+		if r := execHavOne(HavCase{Lat1: lat, Lon1: lon, Lat2: -lat, Lon2: lon2}); r.Err != nil {
+			return r
+		}
+	}
+	return execHavOne(c)
+}
+
+func execHavOne(c HavCase) vt.Result {
 	hav, _ := distance.GetFloatDistanceFn(models.DistanceHaversine)
 	x, y := []float32{c.Lat1, c.Lon1}, []float32{c.Lat2, c.Lon2}
 	got, rev := hav(x, y), hav(y, x)
